@@ -36,6 +36,10 @@ inductive Atom where
   | statusIs (s : Status) -- `switch pi.Status`
   | stateOk               -- `spt.getState` returned no error
   | getOk                 -- `st.Get` returned no error
+  | opNil                 -- `op == nil` after `TrackNewOperation` (round 8c)
+  | sendOk                -- `ch <- op` can proceed (non-blocking send in `enqueue`)
+  | isMeta                -- `c.Type == api.MetaType`
+  | isRemote              -- `c.IsRemotePin(spt.peerID)`
   | unknown
   deriving DecidableEq, Repr
 
@@ -45,6 +49,8 @@ inductive Act where
   | setPhase (p : Phase) | setPhaseArg | setError | setErrMsg | stamp
   | cancel | cancelCtx | call
   | pinDefault | pinRecorded | enqueuePin | enqueueUnpin
+  | trackNewQ | trackNewRemote | chPin | chUnpin | send | errFull | retErr | clean       -- round 8c: enqueue / Track
+  | retEnqueuePin | retEnqueueUnpinCid | getExists | retRecOp | retRecStatus
   | unknown
   deriving DecidableEq, Repr
 
@@ -199,6 +205,109 @@ def recOf : List Act → Bool → Option (OpType × Bool)
 
 def recT (t : Table) (st : Status) (stateOk getOk : Bool) : Option (Option (OpType × Bool)) :=
   (firstRow t (envRec st stateOk getOk)).map (fun a => recOf a false)
+
+/-! ### round 8c: `Tracker.enqueue`, `Track`, `Untrack`, `Recover` -/
+
+/-- the channel variable `ch` when the send / the default branch is reached: the last assignment on the path (none = Go's nil channel) -/
+def chanOf : List Act → Option CallKind → Option CallKind
+  | [], ch => ch
+  | .chPin :: r, _ => chanOf r (some .pin)
+  | .chUnpin :: r, _ => chanOf r (some .unpin)
+  | .send :: _, ch => ch
+  | _ :: r, ch => chanOf r ch
+
+/-- `ch <- op` can proceed: the buffered channel has room. A send on the nil channel never proceeds. -/
+def roomFor (cfg : Cfg) (s : State) : Option CallKind → Bool
+  | some .pin => decide (s.pinQ.length < cfg.cap)
+  | some .unpin => decide (s.unpinQ.length < cfg.cap)
+  | none => false
+
+def envEnq (opNil : Bool) (typ : OpType) (room : Bool) : Atom → Bool
+  | .opNil => opNil
+  | .typIs t => t == Ty.ofOp typ
+  | .sendOk => room
+  | _ => false
+
+structure EnqSt where
+  s : State
+  op : Option Nat := none
+  ch : Option CallKind := none
+  err : Bool := false
+
+/-- executes a path of `enqueue` on the model state (none = a path the model has no meaning for: send without an operation, `return err`
+    without an error, no return) -/
+def execEnq (p : PinSpec) (typ : OpType) : List Act → EnqSt → Option (State × Ret)
+  | [], _ => none
+  | .trackNewQ :: r, e =>
+    match e.op with
+    | none => execEnq p typ r { e with s := (trackNew e.s p typ .queued).1, op := (trackNew e.s p typ .queued).2 }
+    | some _ => none
+  | .chPin :: r, e => execEnq p typ r { e with ch := some .pin }
+  | .chUnpin :: r, e => execEnq p typ r { e with ch := some .unpin }
+  | .send :: r, e =>
+    match e.op, e.ch with
+    | some i, some .pin => execEnq p typ r { e with s := { e.s with pinQ := e.s.pinQ ++ [i] } }
+    | some i, some .unpin => execEnq p typ r { e with s := { e.s with unpinQ := e.s.unpinQ ++ [i] } }
+    | _, _ => none
+  | .errFull :: r, e => execEnq p typ r { e with err := true }
+  | .setError :: r, e =>
+    match e.op with
+    | some i => execEnq p typ r { e with s := { e.s with ops := upd e.s.ops i { e.s.ops i with phase := .error } } }
+    | none => none
+  | .cancel :: r, e =>
+    match e.op with
+    | some i => execEnq p typ r { e with s := cancelOp e.s i }
+    | none => none
+  | .retNil :: _, e => some (e.s, .nil)
+  | .retErr :: _, e => if e.err then some (e.s, .full) else none
+  | _, _ => none
+
+/-- the path of `enqueue` taken: the first row whose literals hold, `sendOk` being judged for the channel THAT row assigned -/
+def enqueueT (t : Table) (cfg : Cfg) (s : State) (p : PinSpec) (typ : OpType) : Option (State × Ret) :=
+  let r := trackNew s p typ .queued
+  match t.find? (fun row => holdsLits (envEnq r.2.isNone typ (roomFor cfg r.1 (chanOf row.acts none))) row.lits) with
+  | some row => execEnq p typ row.acts { s := s }
+  | none => none
+
+def envTrack (k : Kind) (opNil errNil : Bool) : Atom → Bool
+  | .isMeta => k == .sharded
+  | .isRemote => k == .remote
+  | .opNil => opNil
+  | .errNil => errNil
+  | _ => false
+
+/-- `Track` up to the point where it returns or waits for the synchronous `unpin` call (`.call`): the rest (`afterCall`) runs when the
+    daemon answers — the model's `retOk` / `retErr` on a `sync` call. -/
+def execTrack (cfg : Cfg) (p : PinSpec) : List Act → State → Option Nat → Option (State × Ret)
+  | [], _, _ => none
+  | .trackNewRemote :: r, s, none => execTrack cfg p r (trackNew s p .remote .inProgress).1 (trackNew s p .remote .inProgress).2
+  | .call :: _, s, some i => some ({ s with calls := s.calls ++ [{ op := i, kind := .unpin, sync := true, eff := false }] }, .nil)
+  | .retNil :: _, s, _ => some (s, .nil)
+  | .retEnqueuePin :: _, s, none => some (enqueue cfg s p .pin)
+  | _, _, _ => none
+
+/-- `Track(p)` as the regenerated table says (after the consensus component recorded `p` in the pinset, as in `track`). `errNil` = what the
+    synchronous call WILL answer: it must not matter before the call. -/
+def trackT (t : Table) (cfg : Cfg) (s0 : State) (p : PinSpec) (errNil : Bool) : Option (State × Ret) :=
+  let s := { s0 with shared := upd s0.shared p.cid (some p),
+                     failed := if p.kind = .here then upd s0.failed p.cid false else s0.failed }
+  match firstRow t (envTrack p.kind (trackNew s p .remote .inProgress).2.isNone errNil) with
+  | some acts => execTrack cfg p acts s none
+  | none => none
+
+/-- the remote branch of `Track` after the synchronous call answered -/
+def trackAfter (t : Table) (errNil : Bool) : List Act := afterCall ((firstRow t (envTrack .remote false errNil)).getD [.unknown])
+
+def envFound (b : Bool) : Atom → Bool
+  | .found => b
+  | _ => false
+
+/-- `Recover(c)`: the status handed to `recoverWithPinInfo` — the table entry's when there is one, else `Status(c)` -/
+def recoverT (t : Table) (cfg : Cfg) (s : State) (c : Nat) : Option (State × Ret) :=
+  match firstRow t (envFound (s.cur c).isSome), s.cur c with
+  | some [.getExists, .retRecOp], some i => some (recoverWith cfg s c (opStatus (s.ops i)))
+  | some [.getExists, .retRecStatus], none => some (recoverWith cfg s c (statusOf s c))
+  | _, _ => none
 
 def allStatuses : List Status :=
   [.pinned, .pinning, .pinQueued, .pinError, .unpinned, .unpinning, .unpinQueued, .unpinError,
